@@ -193,24 +193,28 @@ def bounded(ctx):
                     break
                 n += 1
                 ind, tab, no_len, no_const = (n * 3) % 9, n % 2 == 1, n % 7 == 0, n % 5 == 0
-                case = {"key": kind, "key_index": ki, "columns": col, "indent": ind, "tab": tab, "no_length": no_len, "no_const": no_const, "leading_zero": exp[0] == 0 or exp[len(exp) // 2] == 0}
+                # array / length types and names: defaults and non-default values, alone and TOGETHER (the length variable must be sizeof of the array that is defined)
+                atype, aname, ltype, lname = [("uint8_t", "key_buf", "size_t", "key_len"), ("unsigned char", "public_key", "uint32_t", "public_key_len"), ("uint8_t", "k", "size_t", "n_bytes"),
+                                              ("uint8_t", "pubKey_1", "unsigned int", "key_len"), ("uint8_t", "key_buf", "uint16_t", "LEN"), ("uint8_t", "other_buf", "size_t", "key_len")][n % 6]
+                case = {"key": kind, "key_index": ki, "columns": col, "indent": ind, "tab": tab, "no_length": no_len, "no_const": no_const, "leading_zero": exp[0] == 0 or exp[len(exp) // 2] == 0,
+                        "array": f"{atype} {aname}", "length": f"{ltype} {lname}"}
                 B.case(("convert", kind, ki, col), sample=case if n in (1, 50) else None)
                 out = f"{d}/out.c"
                 try:
-                    conv.main(pem, out, "uint8_t", "key_buf", "size_t", "key_len", col, "", "", ind, tab, no_len, no_const)
+                    conv.main(pem, out, atype, aname, ltype, lname, col, "", "", ind, tab, no_len, no_const)
                     text = open(out).read()
                 except Exception as e:  # noqa: BLE001
                     B.fail("convert-succeeds", case, f"{type(e).__name__}: {e}")
                     continue
-                data, length_rhs = _parse_c(text)
+                data, length_rhs = _parse_c(text, aname, lname)
                 if not isinstance(data, bytes):
                     B.fail("c-array-well-formed", case, f"array not parseable: {data}")
                     continue
                 if data != exp:
                     B.fail("array-is-exact-public-key", case, f"{len(data)} bytes emitted, expected {len(exp)}-byte X||Y/raw key; first difference at {next((i for i, (a, b) in enumerate(zip(data, exp)) if a != b), min(len(data), len(exp)))}")
-                if not no_len and (length_rhs is None or "sizeof(key_buf)" not in length_rhs):
+                if not no_len and (length_rhs is None or f"sizeof({aname})" not in length_rhs):
                     B.fail("length-variable-is-sizeof-array", case, f"length variable: {length_rhs!r}")
-                if ("const " in text.split("key_buf")[0]) == no_const:
+                if ("const " in text.split(aname + "[")[0]) == no_const:
                     B.fail("layout-options-affect-formatting-only", case, "const modifier does not follow --no-const")
                 lines = [l for l in text.splitlines() if l.strip().startswith("0x")]
                 if any(len(l.split(",")) - (1 if l.rstrip().endswith(",") else 0) > col for l in lines):
